@@ -154,8 +154,10 @@ fn main() {
         });
         s.finish();
     }
-    if prop == "C05" {
-        let n = s.args.budget(8_000, 300_000);
+    if prop == "C05" || prop == "C06" {
+        // (C06 uses the restarts of this part for one clause only: the first lifecycle handler after a restart
+        // is given the restored state as the previous value.)
+        let n = if prop == "C05" { s.args.budget(8_000, 300_000) } else { s.args.budget(3_000, 100_000) };
         let thorough = s.args.thorough();
         s.part(
             "persist-and-restart",
